@@ -1,4 +1,5 @@
 """C05 — relayed data arrives complete, ordered and intact, or the reader is dropped"""
+from lagcommon import LagMode, LAG_RULE
 from hubcommon import HubMode
 from relaycommon import RelayMode
 
@@ -10,8 +11,10 @@ ASSUMPTIONS = ["gorilla/websocket writes a frame atomically or fails the connect
                "where the writer cuts frames is nondeterministic (goroutine scheduling); the theorems hold for every cut"]
 P = "Relay.Props.C05"
 THEOREMS = [(f"Hub.{n}", P) for n in ["frame_is_whole_messages", "stream_integrity", "delivered_exact", "per_sender_fifo",
-                                      "no_silent_skip", "evicted_only_own_backlog", "stays_member"]] + [("Hub.run_inv", "Relay.Props.HubInv")]
+                                      "no_silent_skip", "evicted_only_own_backlog", "stays_member", "frames_are_fresh_slices"]] + [("Hub.run_inv", "Relay.Props.HubInv")]
+RULE = RULE + LAG_RULE
+
 
 
 def modes(tier):
-    return [HubMode("C05"), RelayMode("C05")]
+    return [HubMode("C05"), RelayMode("C05"), LagMode("C05")]
